@@ -324,11 +324,19 @@ class Translator:
         self.prior_fns = {}    # def id -> FnInfo of functions emitted by earlier modules (qualified names)
         self.prior_consts = {} # var def id -> qualified lean name
         self.ext = False       # extended subset (while loops, early exits, partial functions, OpenMP loops, VLAs)
+        self.heap_mode = None  # tr_heap.HeapMode: pointers as values over one heap (module flag "heap", see tr_heap.py)
 
     # ------------------------------------------------------------ naming
     def fn_lean_name(self, d):
         cls = d.get("_class") or ""
         name = d["name"]
+        if self.heap_mode is not None and d.get("kind") in ("CXXConstructorDecl", "CXXDestructorDecl", "FunctionDecl"):
+            # heap-mode modules: constructor / destructor of the class, file-scope functions
+            pre = {"NTT_Goldilocks": "NTT_"}.get(cls, (cls + "_") if cls else "")
+            kinds = {"CXXConstructorDecl": "ctor", "CXXDestructorDecl": "dtor"}
+            if len(self.ast.find_methods(d.get("_class"), name)) > 1:
+                raise Unsupported(d, "overloaded constructor / file-scope function")
+            return pre + kinds.get(d["kind"], lean_ident(name))
         if name.startswith("operator"):
             raise Unsupported(d, "operator definition")
         sibs = [x for x in self.ast.find_methods(cls, name)]
@@ -361,8 +369,17 @@ class Translator:
         self.in_progress.add(key)
         try:
             try:
+                if self.heap_mode is not None and self.heap_mode.wants(def_decl):
+                    raise Unsupported(def_decl, "heap mode")
                 info = FnCtx(self, def_decl).translate(alias=alias)
             except Unsupported as e0:
+                if self.heap_mode is not None:
+                    info = self.heap_mode.translate_fn(self, def_decl, alias)
+                    info.key = key
+                    self.fns[key] = info
+                    self.order.append(info)
+                    self.items.append(info.text)
+                    return info
                 if not self.ext:
                     raise
                 # outside the basic subset: extended mode, total form first, partial form when required
